@@ -166,3 +166,7 @@ FACT_OBLIGATIONS = {
             ("Sessions.FactsBracketCuid", ["FactsBrackets.cuid_is_critical_section"])],
     "C20": [("Sessions.FactsPinsPassword", ["FactsPins.password_source_matches_model"])],
 }
+
+# the cache operations are atomic (map update + store call under one lock): the basis of the request-granularity model
+for _p in ("C01", "C02", "C03", "C05", "C07", "C09", "C12"):
+    FACT_OBLIGATIONS.setdefault(_p, []).append(("Sessions.FactsCacheAtomic", ["FactsCacheAtomic.cache_store_calls_locked", "FactsCacheAtomic.cache_store_calls_cover", "FactsCacheAtomic.compact_callers_locked"]))
